@@ -73,6 +73,8 @@ type Exec struct {
 	globalRefs    map[string]*Term
 	argNames      map[string]bool
 	afterNames    map[string]bool
+	ncallCells    map[string]*Cell
+	applyBind     []*Value
 	jsonFreshUsed bool
 	needsLex      int
 	havocDefaults map[string]bool
@@ -633,6 +635,13 @@ func (x *Exec) execFunction(fn *ssa.Function, st *State, args, bind []*Value, co
 				c := &Cell{Name: "called$" + n, T: tBool, ID: x.cellID}
 				x.calledCells[n] = c
 				st.cells[c] = scalar(tBool, False)
+			}
+			x.ncallCells = map[string]*Cell{}
+			for _, n := range calledNames(contract, "ncalls") {
+				x.cellID++
+				c := &Cell{Name: "ncalls$" + n, T: tInt, ID: x.cellID}
+				x.ncallCells[n] = c
+				st.cells[c] = scalar(tInt, IntLit(0))
 			}
 			x.afterNames = map[string]bool{}
 			for _, n := range calledNames(contract, "after") {
